@@ -411,6 +411,38 @@ def _text_switch_saves(ctx):
 
 
 # ---------------------------------------------------------------------------- R12.2
+def _stateful_instance(repo, f, val):
+    """name of the package class `val` instantiates (directly or through a local assigned once), if that class has a method
+    other than __init__ that stores to / mutates an attribute of self"""
+    for _ in range(3):
+        if isinstance(val, ast.Name):
+            defs = [a.value for a in ast.walk(f.node) if isinstance(a, ast.Assign) and any(isinstance(t, ast.Name) and t.id == val.id for t in a.targets)]
+            if len(defs) != 1:
+                return None
+            val = defs[0]
+        else:
+            break
+    if not (isinstance(val, ast.Call) and isinstance(val.func, (ast.Name, ast.Attribute))):
+        return None
+    cname = val.func.id if isinstance(val.func, ast.Name) else val.func.attr
+    cls = f.module.classes.get(cname)
+    if cls is None and isinstance(val.func, ast.Name):
+        rr = repo.resolve_import(f.module, cname)
+        if rr and rr[0] is not None and rr[1]:
+            cls = rr[0].classes.get(rr[1])
+    if cls is None:
+        return None
+    for c in cls.mro():
+        for mn, m in c.methods.items():
+            if mn == "__init__":
+                continue
+            for n in walk_no_nested(m.node):
+                tg = n.targets if isinstance(n, ast.Assign) else [n.target] if isinstance(n, ast.AugAssign) else []
+                if any(isinstance(t, ast.Attribute) and norm(t.value) == "self" for t in tg):
+                    return cls.name
+    return None
+
+
 def module_state(ctx):
     r = ctx.r
     repo = ctx.repo
@@ -472,6 +504,15 @@ def module_state(ctx):
                 r.bad("R12.2", key, where, "module-level container %s is mutated by %s" % (owner[1], norm(n)[:60]))
                 continue
             knames = {x.id for k in keys for x in ast.walk(k) if isinstance(x, ast.Name)}
+            # a memo may hold values, classes, modules -- not an *object with per-call state*: two overlapping calls (threads, a
+            # nested call from an input source) that look up the same key would run on one parser / serializer
+            shared_cls = _stateful_instance(repo, f, val)
+            if shared_cls is not None:
+                r.bad("R12.2", key + "::stateful-object", where,
+                      "the module-level cache %s stores an instance of %s, whose methods rewrite its attributes on every call: callers that "
+                      "overlap (a second thread while the first blocks in source.read(), a nested call) share one object, and one of them "
+                      "returns the other's document" % (owner[1], shared_cls), {"cache": owner[1], "class": shared_cls})
+                continue
             ok, why = _value_determined_by(f, val, knames)
             r.check("R12.2", ok, key, where,
                     "value stored in module-level cache %s depends on %s, which is not determined by the key %s: a later "
